@@ -755,8 +755,14 @@ class ArgLoopInterp(Interp):
 
 
 def arg_lin(tree):
-    fn = find(tree, "ObjectType", "__initialize__")
-    txt = [ast.unparse(s).replace(" ", "") for s in fn.body]
+    # the assignment sits in __initialize__ or in a helper it calls (`__gather__`): look at every method of ObjectType
+    cls = next(c for c in tree.body if isinstance(c, ast.ClassDef) and c.name == "ObjectType")
+    bodies = [f.body for f in cls.body if isinstance(f, ast.FunctionDef)
+              and any(isinstance(x, (ast.Assign, ast.AnnAssign)) and ast.unparse(x).replace(" ", "").startswith(("self._arguments=", "self._arguments:")) for x in f.body)
+              and f.name != "__init__"]
+    if len(bodies) != 1:
+        raise Unt("ObjectType: expected one method (other than __init__) that assigns self._arguments")
+    txt = [ast.unparse(s).replace(" ", "") for s in bodies[0]]
     for i, t in enumerate(txt):
         if t.startswith("self._arguments=") or t.startswith("self._arguments:"):
             rhs = t.split("=", 1)[1]
